@@ -323,7 +323,34 @@ impl FunctionCompiler<'_> {
     /// Converts constant data of the number type `from` into constant data of the number type
     /// `to`, like a cast would do with a value at runtime. Anything else is returned as it is.
     fn cast_const_data(&self, data: Box<[u8]>, from: Intern<Ty>, to: Intern<Ty>) -> Box<[u8]> {
-        if from == to || !(from.is_int() || from.is_float()) || !(to.is_int() || to.is_float()) {
+        if from == to {
+            return data;
+        }
+
+        // arrays are converted item by item (`.[1, 2, 3]` used as a `[3]i64`)
+        if let (Some((from_len, from_item)), Some((to_len, to_item))) =
+            (from.as_array(), to.as_array())
+            && from_len == to_len
+            && from_item != to_item
+        {
+            let from_stride = from_item.stride() as usize;
+            let to_stride = to_item.stride() as usize;
+            let from_size = from_item.size() as usize;
+            if data.len() < from_stride * from_len as usize {
+                return data;
+            }
+
+            let mut array = vec![0u8; to_stride * to_len as usize];
+            for idx in 0..from_len as usize {
+                let item = &data[idx * from_stride..idx * from_stride + from_size];
+                let item = self.cast_const_data(item.into(), from_item, to_item);
+                let len = item.len().min(to_item.size() as usize);
+                array[idx * to_stride..idx * to_stride + len].copy_from_slice(&item[..len]);
+            }
+            return array.into();
+        }
+
+        if !(from.is_int() || from.is_float()) || !(to.is_int() || to.is_float()) {
             return data;
         }
 
@@ -657,6 +684,33 @@ impl FunctionCompiler<'_> {
                 global_ptr,
                 0,
             ))
+        }
+    }
+
+    /// A reference to a global, as a value of the type the *reference* has.
+    ///
+    /// That type can differ from the type of the global: a global without an annotation that
+    /// holds an array of untyped literals (`primes :: .[2, 3, 5];`, a `[3]{uint}` with 4-byte
+    /// items) is re-typed at the place it is used (`table : [3]i64 = primes;`). The data of the
+    /// global keeps its own layout, so it has to be cast like any other array; reading it with
+    /// the layout of the wider type went past the end of the data (inside a comptime block:
+    /// into uninitialised memory of the compiler, which ended up in the binary).
+    fn compile_global_as(
+        &mut self,
+        loc: ConcreteGlobalLoc,
+        no_load: bool,
+        as_ty: Intern<Ty>,
+    ) -> Option<Value> {
+        let val = self.compile_global(loc, no_load);
+        let sig_ty = self.tys.sig(loc.wrap());
+
+        if sig_ty.as_array().is_some()
+            && as_ty.as_array().is_some()
+            && !sig_ty.is_functionally_equivalent_to(&as_ty, true)
+        {
+            self.cast(val, sig_ty, as_ty)
+        } else {
+            val
         }
     }
 
@@ -1979,7 +2033,7 @@ impl FunctionCompiler<'_> {
                 assert!(!self.world_bodies.has_polymorphic_body(fqn.wrap()));
                 let tfqn = fqn.make_concrete(None);
 
-                self.compile_global(tfqn, no_load)
+                self.compile_global_as(tfqn, no_load, self.tys[self.loc][expr])
             }
             hir::Expr::Member { previous, name, .. } => {
                 if self.tys[self.loc][expr].is_zero_sized() {
@@ -1997,7 +2051,7 @@ impl FunctionCompiler<'_> {
                         assert!(!self.world_bodies.has_polymorphic_body(fqn.wrap()));
                         let tfqn = fqn.make_concrete(None);
 
-                        self.compile_global(tfqn, no_load)
+                        self.compile_global_as(tfqn, no_load, self.tys[self.loc][expr])
                     }
                     _ => {
                         let field_ty = &self.tys[self.loc][expr];
